@@ -1365,7 +1365,8 @@ public:
         auto v_view = v.get_storage_view();
 
         size_type len = (v_view.size() * word_type_bits / 3) + 2;
-        data.reserve(len);
+        const std::size_t start = data.size(); // the digits are appended to what the string already holds
+        data.reserve(start + len);
 
         if ( v_view.size() == 0 )
         {
@@ -1398,7 +1399,7 @@ public:
             {
                 data.push_back('-');
             }
-            std::reverse(data.begin(),data.end());
+            std::reverse(data.begin() + static_cast<std::ptrdiff_t>(start),data.end());
         }
     }
 
@@ -1418,7 +1419,8 @@ public:
         auto v_view = v.get_storage_view();
 
         size_type len = (v_view.size() * basic_bigint<Allocator>::word_type_bits / 3) + 2;
-        data.reserve(len);
+        const std::size_t start = data.size(); // the digits are appended to what the string already holds
+        data.reserve(start + len);
 
         if ( v_view.size() == 0 )
         {
@@ -1450,7 +1452,7 @@ public:
             {
                 data.push_back('-');
             }
-            std::reverse(data.begin(),data.end());
+            std::reverse(data.begin() + static_cast<std::ptrdiff_t>(start),data.end());
         }
     }
 
